@@ -163,6 +163,7 @@ type Exec struct {
 	typeTags       map[string]int
 	curFrame       *Frame
 	usesSz         bool
+	sprintfNames map[string]string
 	activeChild *Builder
 	callCount      map[string]int
 	sortCount      int
@@ -758,6 +759,7 @@ func VerifyFunction(ld *Loader, db *ContractDB, fn *ssa.Function, con *Contract)
 	x.cands.symf = func(arr string, out map[string]bool) { x.symbolsOf(arr, out, 3) }
 	x.checked = con.Arith == "checked"
 	x.usesSz = true
+	x.sprintfNames = map[string]string{}
 	defer func() {
 		if r := recover(); r != nil {
 			switch e := r.(type) {
